@@ -299,6 +299,30 @@ def _pipeline(ctx, pb, zn, zd, owners, style, case, nblocks, other):
             on = "ok"
         except Exception as e:
             rn, on = e, "raise"
+        if opname == "container":
+            # the same method on the NumPy-backed twin: compute/persist keep it NumPy-backed,
+            # to_dask_array/rechunk make it Dask-backed; nothing else may change
+            kind = desc["kind"]
+            try:
+                akw = dict(an)
+                if kind in ("persist", "compute"):
+                    akw["sched_kw"] = {"scheduler": "synchronous"}
+                cn = op.call(pb, cur_n, akw, desc)
+            except Exception as e:
+                ctx.violate("container", f"{kind}:numpy-input",
+                            f"{kind}() on a NumPy-backed signal raised {type(e).__name__}: {e}")
+            want_dask = kind in ("to_dask_array", "rechunk", "rechunk_default")
+            if isinstance(cn.data, da.Array) != want_dask:
+                ctx.violate("container", f"{kind}:numpy-input",
+                            f"{kind}() on a NumPy-backed signal returned {type(cn.data).__name__} data")
+            if type(cn) is not type(cur_n) or meta_snap(cn) != meta_snap(cur_n) \
+                    or tuple(cn.shape) != tuple(cur_n.shape) or cn.dtype != cur_n.dtype:
+                ctx.violate("container", f"{kind}:numpy-input",
+                            f"{kind}() on a NumPy-backed signal changed more than the container: "
+                            + snapshot.describe_diff(meta_snap(cur_n), meta_snap(cn)))
+            cv = cn.data.compute(scheduler="synchronous") if want_dask else cn.data
+            values_equal(ctx, kind, cur_n.data, cv, 0, 1, f"{kind}() on a NumPy-backed signal")
+            ctx.probe("container_method_on_numpy_input")
         if on == "ok" and opname != "container" and tape.chance(1, 6, f"p{s}.scribble"):
             # the client scribbles over the arrays this call returned, then calls again: the
             # reference is "the same operation on the NumPy-backed signal" at ANY time, so a
